@@ -13,6 +13,11 @@
    Part 4  transcriptions of the pinned class-level overrides that skip the base check
            (DiagLinearOperator.matmul, IdentityLinearOperator.matmul/_maybe_reshape_rhs, ZeroLinearOperator.matmul,
             ZeroLinearOperator.__add__, base _expand_batch)
+   Part 5  OPERATOR second operands: the class-level __add__ / _mul_matrix / add_diagonal / mul overrides that decide by
+           themselves whether two operator shapes fit (hand copies of what the translator emits from
+           diag_linear_operator.py, dense_linear_operator.py, zero_linear_operator.py; every tensor / operator expression is
+           denoted by its shape), the vocabulary of the regenerated FAST-PATH table (paths returning self / the operand
+           unchanged), and the pinned fast paths `A + Zero -> A`, `A * Zero -> Zero`
 
    Modelled by their mathematical meaning (not verified): torch.broadcast_shapes, torch.matmul's shape rule,
    Tensor.expand, torch.cat, Tensor.__getitem__ range rule, elementwise `*` (all through the Part 1 specs, which are
@@ -520,3 +525,99 @@ Definition pinned_zero_matmul (a b : shape) : res shape :=
 
 (* ZeroLinearOperator.__add__(other) = other *)
 Definition pinned_zero_add (a b : shape) : res shape := Ok b.
+
+(* ===================================================================================== *)
+(** * Part 5 — operator second operands *)
+
+(* Class invariants used as denotations (the `_size` of the classes; template-checked by the translator):
+     DiagLinearOperator of shape S:          _diag        has shape S[:-1]
+     ConstantDiagLinearOperator of shape S:  diag_values  has shape S[:-2] ++ [1],  diag_shape = S[-1]
+     DenseLinearOperator of shape S:         tensor       has shape S
+   Constructors:  DiagLinearOperator(t) : t.shape ++ [t.shape[-1]];
+                  ConstantDiagLinearOperator(t, n) : t.shape[:-1] ++ [n; n], ValueError under settings.debug unless t.shape[-1] = 1;
+                  DenseLinearOperator(t) : t.shape;  ZeroLinearOperator( *sizes) : sizes. *)
+
+(* DiagLinearOperator.add_diagonal(diag):
+     shape = torch.broadcast_shapes(self._diag.shape, diag.shape)
+     return DiagLinearOperator(self._diag.expand(shape) + diag.expand(shape)) *)
+Definition lib_diag_add_diagonal (a b : shape) : res shape :=
+  bind (lift (torch_broadcast (py_slice_to a (-1)%Z) b)) (fun t0 =>
+  bind (lift (torch_expand (py_slice_to a (-1)%Z) (zs_of t0))) (fun t1 =>
+  bind (lift (torch_expand b (zs_of t0))) (fun t2 =>
+  bind (lift (torch_broadcast t1 t2)) (fun t3 =>
+  bind (py_idx t3 (-1)%Z) (fun t4 =>
+  Ok (t3 ++ [t4])))))).
+
+(* DiagLinearOperator.__add__(other: DiagLinearOperator) = self.add_diagonal(other._diag) *)
+Definition lib_diag_add (a b : shape) : res shape :=
+  bind (lib_diag_add_diagonal a (py_slice_to b (-1)%Z)) (fun t0 => Ok t0).
+
+(* ConstantDiagLinearOperator.__add__(other: ConstantDiagLinearOperator):
+     if other.shape[-1] == self.shape[-1]:
+         return ConstantDiagLinearOperator(self.diag_values + other.diag_values, self.diag_shape)
+     raise RuntimeError *)
+Definition lib_constdiag_add (a b : shape) : res shape :=
+  bind (py_idx b (-1)%Z) (fun t0 =>
+  bind (py_idx a (-1)%Z) (fun t1 =>
+  if (t0 =? t1) then
+    bind (lift (torch_broadcast (py_slice_to a (-2)%Z ++ [1]) (py_slice_to b (-2)%Z ++ [1]))) (fun t2 =>
+    bind (py_idx a (-1)%Z) (fun t3 =>
+    bind (py_idx t2 (-1)%Z) (fun t4 =>
+    bind (if t4 =? 1 then Ok (py_slice_to t2 (-1)%Z ++ [t3; t3]) else Raise) (fun t5 =>
+    Ok t5))))
+  else Raise)).
+
+(* ConstantDiagLinearOperator._mul_matrix(other: ConstantDiagLinearOperator):
+     if not self.diag_shape == other.diag_shape: raise ValueError
+     return self.__class__(self.diag_values * other.diag_values, diag_shape=self.diag_shape) *)
+Definition lib_constdiag_mul_matrix (a b : shape) : res shape :=
+  bind (py_idx a (-1)%Z) (fun t4 =>
+  bind (py_idx b (-1)%Z) (fun t5 =>
+  if negb ((t4 =? t5)) then Raise
+  else
+    bind (lift (torch_broadcast (py_slice_to a (-2)%Z ++ [1]) (py_slice_to b (-2)%Z ++ [1]))) (fun t0 =>
+    bind (py_idx a (-1)%Z) (fun t1 =>
+    bind (py_idx t0 (-1)%Z) (fun t2 =>
+    bind (if t2 =? 1 then Ok (py_slice_to t0 (-1)%Z ++ [t1; t1]) else Raise) (fun t3 =>
+    Ok t3)))))).
+
+(* DenseLinearOperator.__add__(other: DenseLinearOperator) = DenseLinearOperator(self.tensor + other.tensor) *)
+Definition lib_dense_add (a b : shape) : res shape := bind (lift (torch_broadcast a b)) (fun t0 => Ok t0).
+(* ZeroLinearOperator.__add__(other) = other *)
+Definition lib_zero_add (a b : shape) : res shape := Ok b.
+(* ZeroLinearOperator.mul(other) = ZeroLinearOperator( *torch.broadcast_shapes(self.shape, other.shape)) *)
+Definition lib_zero_mul (a b : shape) : res shape := bind (lift (torch_broadcast a b)) (fun t0 => Ok t0).
+
+(* pinned fast paths of the base class (and SumLinearOperator.__add__) for a ZeroLinearOperator OPERAND:
+     __add__: if isinstance(other, ZeroLinearOperator): return self
+     mul:     if isinstance(other, ZeroLinearOperator): return other      (before the broadcast check) *)
+Definition pinned_add_zero_operand (a b : shape) : res shape := Ok a.
+Definition pinned_mul_zero_operand (a b : shape) : res shape := Ok b.
+
+(* FAST-PATH table vocabulary: a path of a binary entry point that returns self / the operand unchanged *)
+Inductive fpkind := RetSelf | RetOperand.
+Record fastpath := FP { fp_def : string; fp_entry : entry; fp_kind : fpkind; fp_operand : list string;
+                        fp_guards : list guard }.
+Definition fpkind_eqb (x y : fpkind) : bool :=
+  match x, y with RetSelf, RetSelf | RetOperand, RetOperand => true | _, _ => false end.
+Fixpoint strs_eqb (a b : list string) : bool :=
+  match a, b with
+  | [], [] => true
+  | x :: a', y :: b' => String.eqb x y && strs_eqb a' b'
+  | _, _ => false
+  end.
+(* same defining class, entry, returned object and tested operand classes (the guards are not part of the identity) *)
+Definition fastpath_same (x y : fastpath) : bool :=
+  String.eqb (fp_def x) (fp_def y) && entry_eqb (fp_entry x) (fp_entry y) && fpkind_eqb (fp_kind x) (fp_kind y) &&
+  strs_eqb (fp_operand x) (fp_operand y).
+(* what must have been checked before returning an operand / the receiver unchanged so that no shape torch refuses
+   gets through: the exact guard of the entry point (matmul: G_mm; __add__ / mul: G_bc).  Returning self from
+   add_diagonal / rmatmul / __sub__ is never justified by a guard of this vocabulary. *)
+Definition fastpath_guarded (f : fastpath) : bool :=
+  match req_exact (fp_entry f) with Some need => has_all need (fp_guards f) | None => false end.
+
+(* class membership through the regenerated MRO table *)
+Definition mro_lookup (tbl : list (string * list string)) (c : string) : list string :=
+  match find (fun x => String.eqb (fst x) c) tbl with Some x => snd x | None => [] end.
+Definition isinst_in (tbl : list (string * list string)) (c k : string) : bool :=
+  existsb (String.eqb k) (mro_lookup tbl c).
